@@ -17,7 +17,8 @@ RULE = ("for every identifier and every domain class of its row in the axiom tab
         "grids N and S0), symmetry on all ordered pairs, non-negativity and zero self-distance "
         "for dissimilarity-type metrics, triangle inequality on ALL ordered triples for the 13 "
         "true metrics (array arithmetic on the real-call matrix); finiteness and symmetry additionally on "
-        "structured vectors of length 32..1024 at unit and at 0..255-like scale; evaluations = real calls; a "
+        "structured vectors of length 32..1024 at unit and at 0..255-like scale; self-distances also with the "
+        "very same object for both parameters; symmetry between an integer and a float array; evaluations = real calls; a "
         "pair is non-trivial when i != j")
 ASSUMPTIONS = [
     "the axiom table (which metric claims which axiom on which domain class) is fixed in "
